@@ -4,20 +4,6 @@
 # Writes /verif/.work/mutpar/<name>.txt ; prints a summary.  /repo itself is not touched.
 LANES="${1:-4}"
 OUT=/verif/.work/mutpar; mkdir -p "$OUT"; rm -f "$OUT"/*.txt
-lane() {
-  id="$1"
-  for m in /verif/seeded/${id}_m*; do
-    name=$(basename "$m"); W=/tmp/mw_$name
-    git -C /repo worktree add -q --detach "$W" HEAD 2>/dev/null || { echo "$name WORKTREE-FAILED" > "$OUT/$name.txt"; continue; }
-    if (cd "$W" && git apply "$m/patch.diff" 2>/dev/null); then
-      (cd /verif && VERIF_REPO="$W" ./check "$id" --tier quick > "$OUT/$name.log" 2>&1; echo "exit=$? $(grep -c '^VIOLATION' "$OUT/$name.log") violations" > "$OUT/$name.txt")
-    else
-      echo "APPLY-FAILED" > "$OUT/$name.txt"
-    fi
-    git -C /repo worktree remove --force "$W" 2>/dev/null
-  done
-}
-export -f lane 2>/dev/null
 for id in C01 C02 C03 C04 C05 C06 C07 C08 C09 C10 C11 C12 C13 C14 C15 C16 C17 C18 C19 C20; do echo $id; done | xargs -P "$LANES" -I{} sh -c "
   id={}
   for m in /verif/seeded/\${id}_m*; do
